@@ -198,6 +198,15 @@ def run_check(pid: str, tier: str, seed: int) -> int:
     blocks = list(mod.blocks(tier, seed))
     budget = getattr(mod, "BUDGET", {"quick": 60, "thorough": 900})[tier]
     budget = float(os.environ.get("VERIF_BUDGET", budget))
+    # the budget is sized for 16 idle cores; on a machine that is busy with other work the same enumeration needs more
+    # wall time, so the wall budget grows with the load seen at start (at most threefold). It only decides when an
+    # unfinished run gives up (exhaustive=False); it never changes what is enumerated or how a case is judged.
+    try:
+        load_factor = min(3.0, max(1.0, os.getloadavg()[0] / float(NPROC)))
+    except OSError:
+        load_factor = 1.0
+    if "VERIF_BUDGET" not in os.environ:
+        budget *= load_factor
     deadline = t0 + budget
     _RUN = (deadline, tier, seed)
     order = list(range(len(blocks)))
